@@ -720,7 +720,7 @@ fn case_sign(rep: &Report, rng: &mut Rng) {
     }
     // modified signature: every region
     let sb = sig.to_bytes();
-    for _ in 0..4 {
+    for _ in 0..(if rep.is_miri() { 1 } else { 4 }) {
         let mut s2 = sb;
         s2[rng.usize_below(64)] ^= 1 << rng.below(8);
         let s2 = Signature::from_bytes(&s2);
@@ -787,7 +787,7 @@ fn main() {
     rep.assumption("IPv6 flow info / scope id are 0 in judged round trips (serde's SocketAddrV6 encoding carries neither; their loss is counted under v6_extras.*, not judged)");
     let miri = rep.is_miri();
     let threads = if miri { 1 } else { a.extra_u64("threads", a.pick(4u64, 16)) };
-    let (n_keys, n_strings, n_values, n_sign) = if miri { (1u64, 16u64, 1u64, 1u64) } else { a.pick((6_000, 30_000, 4_000, 1_500), (60_000, 300_000, 40_000, 12_000)) };
+    let (n_keys, n_strings, n_values, n_sign) = if miri { (1u64, 8u64, 1u64, 1u64) } else { a.pick((6_000, 30_000, 4_000, 1_500), (60_000, 300_000, 40_000, 12_000)) };
     std::thread::scope(|s| {
         for shard in 0..threads {
             let rep = &rep;
